@@ -435,9 +435,17 @@ MODEL_SHAPE = {  # PV.Sig.rsaOfRoute / ecOfRoute / edOfRoute
 }
 
 
+def report_route_failures(ctx):
+    while lk.route_failures:
+        kind, label, what, e = lk.route_failures.pop()
+        ctx.fail("construction-route-fails:%s:%s" % (kind, exc_site(e)), {"stream": "routes", "key": label, "call": what,
+                 "class_tables_now": list(class_tables())}, repr(e))
+
+
 def real_stream(ctx):
     rng = ctx.rng
     groups = real_groups(ctx)
+    report_route_failures(ctx)
     by_kind = {}
     for kind, label, routes in groups:
         by_kind.setdefault(kind, []).append((label, routes))
@@ -518,13 +526,106 @@ def real_stream(ctx):
                         ctx.sample({"key": label, "verifier": vroute, "mutation": mlabel, "verdict": show(res)})
 
 
+WRONG_NAMES = ["rsa-sha2-384", "ssh-dss", "", "ssh-rsa2", "rsa-sha2-256 ", "RSA-SHA2-512", "rsa-sha2-1024", "x",
+               "ssh-rsa-cert-v02@openssh.com", "ecdsa-sha2-nistp256k1", "ssh-ed448", "sk-ssh-ed25519@openssh.com"]
+
+
+def class_tables():
+    """the per-class algorithm tables as the classes hold them NOW: (python type name, canonical text)"""
+    import paramiko
+
+    h = paramiko.RSAKey.HASHES
+    rsa = ",".join("%s:%d:%s" % (hx(k.encode()), lk.HASH_ID[v.name], hx(k.replace(lk.CERT, "").encode())) for k, v in h.items())
+    ec = ",".join("%s:%d" % (hx(c.key_format_identifier.encode()), lk.HASH_ID[c.hash_object.name])
+                  for c in paramiko.ECDSAKey._ECDSA_CURVES.ecdsa_curves)
+    return type(h).__name__, rsa, ec
+
+
+def table_check(ctx, when):
+    """generated fact: RSAKey.HASHES is a plain dict with exactly the model's six entries, the curve set is the
+    model's three - before and after everything this run did to key objects"""
+    model = ctx.driver("C35", ["table rsa", "table ec"])
+    tname, rsa, ec = class_tables()
+    ctx.case(("tables", when), True)
+    if tname != "dict":
+        ctx.disagree("RSAKey.HASHES type (%s)" % when, {"when": when}, "dict", tname)
+    if model is not None:
+        if sorted(model[0].split(",")) != sorted(rsa.split(",")):
+            ctx.disagree("RSAKey.HASHES contents (%s)" % when, {"when": when}, model[0], rsa)
+        if model[1] != ec:
+            ctx.disagree("ECDSA curve table (%s)" % when, {"when": when}, model[1], ec)
+
+
+def history_stream(ctx):
+    """stateful sequences: first ask a key to SIGN under an unknown / foreign algorithm name (whatever that call
+    does, it must leave no trace), THEN verify genuine signatures relabelled with every such name - the one just used
+    included - under every object of the key.  A wrong algorithm name never verifies, whatever happened before."""
+    import paramiko
+
+    rng = ctx.rng
+    groups = real_groups(ctx)
+    report_route_failures(ctx)
+    toy = []
+    n = rng.randrange(1, 1 << 40)
+    toy.append(("rsa", "toy-rsa", [("toy-private", lk.toy_rsa_key("p", n, 1024)), ("toy-public", lk.toy_rsa_key("u", lk.toy_pub(n), 1024))]))
+    toy.append(("ec", "toy-ec", [("toy-private", lk.toy_ec_key("p", n, 256)), ("toy-public", lk.toy_ec_key("u", lk.toy_pub(n), 256))]))
+    toy.append(("ed", "toy-ed", [("toy-private", lk.toy_ed_key("s", n)), ("toy-public", lk.toy_ed_key("v", lk.toy_pub(n)))]))
+    seen_kind = {}
+    for kind, label, routes in toy + groups:
+        if seen_kind.get(kind, 0) >= (6 if ctx.thorough else 3):
+            continue
+        seen_kind[kind] = seen_kind.get(kind, 0) + 1
+        signers = [(r, o) for r, o in routes if o.can_sign()]
+        sroute, signer = signers[0]
+        own = {"rsa": RSA_ALL, "ec": [signer.get_name()], "ed": [ED_NAME]}[kind]
+        wrong = [w for w in WRONG_NAMES + ALL_NAMES if w not in own and w.replace(lk.CERT, "") not in own]
+        data = rng.randbytes(24)
+        # genuine signatures (every hash for RSA) made BEFORE the history
+        genuine = []
+        for alg in ([None, "rsa-sha2-256", "rsa-sha2-512"] if kind == "rsa" else [None]):
+            blob = (signer.sign_ssh_data(data, alg) if alg else signer.sign_ssh_data(data)).asbytes()
+            genuine.append((alg, split_blob(blob)))
+        for w in wrong:
+            history = []
+            try:
+                m = signer.sign_ssh_data(data, w)
+                a, _sig = split_blob(m.asbytes())
+                history.append("sign(data, %r) -> blob declaring %r" % (w, a.decode("latin-1")))
+                if kind == "rsa":
+                    ctx.dist("history:rsa-sign-unknown-name:returned")
+            except Exception as e:  # noqa: BLE001
+                history.append("sign(data, %r) -> %s" % (w, type(e).__name__))
+            for alg, (a, sig) in genuine:
+                relabelled = mk_blob(w.encode(), sig)
+                for route, v in routes:
+                    res = lk.call_verify(v, data, relabelled)
+                    ctx.case(("history", label, route, w, alg), True)
+                    ctx.dist("history:%s:relabelled" % kind)
+                    case = {"stream": "history", "key": label, "verifier": route, "history": history,
+                            "genuine_algorithm": a.decode(), "relabelled_as": w, "data": data.hex(), "blob": relabelled.hex()}
+                    if res[0] == "exc":
+                        ctx.fail("verify-raises:%s:%s" % (kind, exc_site(res[1])), case, repr(res[1]))
+                    elif res[1] is not False:
+                        ctx.fail("accepted-wrong-algorithm-name:%s" % kind, case,
+                                 "a genuine %s signature relabelled %r verified (%r) after: %s"
+                                 % (a.decode(), w, res[1], "; ".join(history)))
+            # the genuine ones still verify, under their own names
+            for alg, (a, sig) in genuine:
+                res = lk.call_verify(routes[-1][1], data, mk_blob(a, sig))
+                if res != ("ok", True):
+                    ctx.fail("genuine-rejected:%s" % kind, {"stream": "history", "key": label, "history": history}, repr(res))
+
+
 def run(ctx):
     ctx.rule = ("per key (toy: random keys of all three types and both object shapes; real: generated RSA 1024/2048 "
                 "[thorough: 3072/4096], ECDSA P-256/384/521, bundled and fresh Ed25519, each through every route): "
                 "genuine blobs for every algorithm name, then bit flips, truncations, extensions, other/ill-formed "
                 "algorithm names, lying length fields, malformed inner encodings (negative/zero/oversized/non-minimal "
                 "mpints, wrong signature lengths). distinct = distinct (key, verifier, data, blob); non-trivial = the "
-                "blob carries the verifier's own algorithm name, so the signature field is actually examined")
+                "blob carries the verifier's own algorithm name, so the signature field is actually examined. history stream: "
+                "sign under an unknown/foreign algorithm name first, then verify genuine signatures relabelled with every "
+                "wrong name under every object of the key; the classes' algorithm tables are compared with the model's "
+                "before and after the run")
     ctx.trust("cryptography (RSA PKCS1v15, ECDSA, DER (de)serialisation of (r,s)) and nacl (Ed25519): assumed to "
               "satisfy Laws (verify pk m (sign sk m)), to leave verify only by returning / InvalidSignature "
               "(BadSignatureError) / ValueError, and to be unforgeable (not proved; symbolic hypothesis in *_accept_genuine)",
@@ -534,10 +635,13 @@ def run(ctx):
                "re-framings that carry the same algorithm name and signature value (trailing bytes, over-long length "
                "fields >= 2^20 on a short body, RSA leading zeros, non-minimal mpints) are not 'altered signatures'")
     ctx.build()
+    table_check(ctx, "before")
     text_stream(ctx)
     toy_stream(ctx)
     witness_replay(ctx)
     real_stream(ctx)
+    history_stream(ctx)
+    table_check(ctx, "after")
 
 
 def replay(data):
